@@ -277,6 +277,8 @@ class Edits:
     def __init__(self, text):
         self.text = text
         self.edits = []  # [s, e, parts, id]
+        self.outer = set()
+        self.emitted = set()
 
     def add(self, s, e, parts):
         if isinstance(parts, str):
@@ -286,10 +288,15 @@ class Edits:
     def insert(self, pos, s):
         self.add(pos, pos, [s])
 
+    def insert_outer(self, pos, s):
+        """zero-width insert that stays in front of any replacement starting at the same offset (loop contract clauses)"""
+        self.add(pos, pos, [s])
+        self.outer.add(self.edits[-1][3])
+
     def render(self, lo, hi, exclude=frozenset()):
-        cand = [ed for ed in self.edits if lo <= ed[0] and ed[1] <= hi and ed[3] not in exclude]
-        # outermost first: by start, then widest, then creation order
-        cand.sort(key=lambda ed: (ed[0], -(ed[1] - ed[0]), ed[3]))
+        cand = [ed for ed in self.edits if lo <= ed[0] and ed[1] <= hi and ed[3] not in exclude and ed[3] not in self.emitted]
+        # outermost first: by start, outer inserts, then widest, then creation order
+        cand.sort(key=lambda ed: (ed[0], 0 if ed[3] in self.outer else 1, -(ed[1] - ed[0]), ed[3]))
         out = []
         pos = lo
         i = 0
@@ -303,6 +310,8 @@ class Edits:
                 i += 1
                 continue
             out.append(self.text[pos:s])
+            if eid in self.outer:
+                self.emitted.add(eid)
             out.append(self._render_parts(parts, exclude | {eid}))
             if e > s:
                 # skip everything nested in [s,e)
@@ -572,6 +581,9 @@ class Lowerer:
             self.calls_by_fn.setdefault(name, set()).add(cal)
 
         def argt(a):
+            t_ = a['type'].get('desugaredQualType', a['type']['qualType'])
+            if is_stream(t_) and not t_.strip().endswith('*'):
+                return 'std::ostream &'      # stream lvalues are passed by reference: struct vstream * in C
             return a['type']['qualType']
 
         def need_nomacro(n, what):
@@ -944,11 +956,11 @@ class Lowerer:
             clause = ' ' + ' '.join(loops[i]) + ' '
             if l['kind'] == 'DoStmt':
                 bodyn = [c for c in l['inner'] if isinstance(c, dict) and c][0]   # do <clauses> body while (cond);
-                ed.insert(rng(bodyn)[0], clause)
+                ed.insert_outer(rng(bodyn)[0], clause)
             else:
                 bodyn = [c for c in l['inner'] if isinstance(c, dict) and c][-1]
                 b0 = rng(bodyn)[0]
-                ed.insert(b0, clause)
+                ed.insert_outer(b0, clause)
 
         if kind == 'CXXConstructorDecl':
             ed.insert(be - 1, ' return this; ')
